@@ -268,14 +268,45 @@ def _programs(run, nv, quick, need_not=False, tag="", leaf_quick=None, leaf_full
     return progs
 
 
-def _world_and_doms(rng, nv, quick, cover_p=0.3):
-    """A world plus one domain per variable (sometimes shared: self-join)."""
-    if rng.random() < cover_p:
+def _compares_objects(t):
+    """Does the program compare objects with one another (==, in_, p_eq on variables / ref / refs)?  The denotation
+    compares objects by identity, so such programs are not run on worlds whose objects have value equality."""
+    if isinstance(t, list):
+        return any(_compares_objects(x) for x in t)
+    if not isinstance(t, dict):
+        return False
+    if t.get("k") == "attr" and t.get("a") in ("ref", "refs"):
+        return True
+    if t.get("k") == "pred" and t.get("p") == "p_eq":
+        return True
+    if t.get("k") in ("cmp", "in") and any(isinstance(t.get(x), dict) and t[x].get("k") in ("var", "sub") for x in ("l", "r")):
+        return True
+    return any(_compares_objects(v) for v in t.values())
+
+
+def _world_and_doms(rng, nv, quick, cover_p=0.3, value_equal_p=0.0, prog=None):
+    """A world plus one domain per variable (sometimes shared: self-join).  value_equal_p: share of worlds in which
+    several distinct objects compare equal to one another (each is a solution of its own all the same) - only for
+    programs that do not compare objects with one another."""
+    if value_equal_p and rng.random() < value_equal_p and prog is not None and not _compares_objects(prog):
+        W = datasets.value_equal_world(rng, rng.randint(3, 6))
+    elif rng.random() < cover_p:
         W = datasets.covering_world(9)
     else:
         W = datasets.random_world(rng, rng.randint(2, 6))
     doms = datasets.domains_for(rng, W, nv, shared=rng.random() < 0.3, maxdom=4 if nv <= 2 else 3)
     return W, doms
+
+
+def _bare_condition_programs(run, quick, need_not=False):
+    """Grammar G2t: two variables, bare attribute / method-call conditions on variable 2 (operands that do not echo the
+    incoming bindings in the rows they yield) mixed with conditions on variable 1 alone and a join, each leaf at most
+    once; negations at any position.  Quick: random walks; thorough: the whole BFS up to three leaves."""
+    c = dict(G="G2t", NV=2, LeafLimit=6, MaxLeaves=3 if quick else 4, MaxNot=1 if quick else 2, NeedNot=need_not)
+    if quick:
+        return run.export("GenQuery", "G2t-sim", "PROG", constants=c, simulate=1500, depth=12, count=False)
+    return run.export("GenQuery", "G2t-bfs", "PROG", constants=dict(c, MaxLeaves=3, MaxNot=1), invariants=("Export", "WellFormed")) + \
+        run.export("GenQuery", "G2t-sim", "PROG", constants=c, simulate=20000, depth=14, count=False)
 
 
 def _partial_binding_programs(run, rng, quick, qc, add):
@@ -395,7 +426,7 @@ def check_C02(tier, seed):
                                                     dict(drain_ev(2, eqto=1), b2=True)], dump_graph=True))
         for p in progs:
             for _ in range(1 if quick else 2):
-                W, doms = _world_and_doms(rng, nv, quick)
+                W, doms = _world_and_doms(rng, nv, quick, value_equal_p=0.15, prog=p)
                 q = mk_query(p, doms, declare="random")
                 # a second object of the same query evaluated with the result caches off: stage B2 of the mechanism
                 # model predicts its exact row sequence (Layer B binding)
@@ -435,10 +466,12 @@ def check_C03(tier, seed):
         elif len(progs) > 50000:
             progs = _sample(rng, progs, 50000)
             run.exhaustive = False
+        if nv == 2:
+            progs += _bare_condition_programs(run, quick)
         for p in progs:
             if p["cond"]["k"] == "true":      # nothing to negate
                 continue
-            W, doms = _world_and_doms(rng, nv, quick, cover_p=0.5 if nv == 1 else 0.2)
+            W, doms = _world_and_doms(rng, nv, quick, cover_p=0.5 if nv == 1 else 0.2, value_equal_p=0.15, prog=p)
             if nv == 1:
                 doms = [list(range(1, len(W["objs"]) + 1))]
             form = "op" if rng.random() < 0.3 else "fn"
@@ -1061,6 +1094,9 @@ def check_C05(tier, seed, extra_programs=None):
                       ("b3-right-operand-before-the-repair", ("RightKeepsLeftVars",))):
         run.mc("MechCheck", name, constants=dict(b3, G="G3ws", NV=3, LeafLimit=8, MaxLeaves=4, MaxNot=0, **{k: False for k in off}),
                invariants=("Mech3EqualsSem",), expect_violation="Mech3EqualsSem", count=False)
+    # bare attribute / method-call conditions on one variable under bindings of the other (grammar G2t), with negations
+    run.mc("MechCheck", "b3-bare-conditions", constants=dict(b3, G="G2t", NV=2, LeafLimit=6, MaxLeaves=2 if quick else 3),
+           invariants=("Mech3EqualsSem",))
     if not quick:
         # every and_/or_ tree of up to four of the first six leaves
         run.mc("MechCheck", "b3-partial-bindings-six-leaves", constants=dict(b3, G="G3w", NV=3, LeafLimit=6, MaxLeaves=4, MaxNot=0),
@@ -1073,6 +1109,8 @@ def check_C05(tier, seed, extra_programs=None):
         elif len(progs) > 30000:
             progs = _sample(rng, progs, 30000)
             run.exhaustive = False
+        if nv == 2:
+            progs += _bare_condition_programs(run, quick)
         if nv == 3:
             # conditions on three independent variables combined by and_/or_: partial bindings in the operator caches
             extra = run.export("GenQuery", "G1x-bfs", "PROG", constants=dict(G="G1x", NV=3, LeafLimit=6, MaxLeaves=3, MaxNot=0,
@@ -1083,7 +1121,7 @@ def check_C05(tier, seed, extra_programs=None):
             progs += _partial_binding_programs(run, rng, quick, qc, lambda q: qc.add(
                 q[0], [q[1], copy.deepcopy(q[1])], _c05_events(rng, b3=True)))
         for p in progs:
-            W, doms = _world_and_doms(rng, nv, quick)
+            W, doms = _world_and_doms(rng, nv, quick, value_equal_p=0.2, prog=p)
             q = mk_query(p, doms, declare="random")
             qc.add(W, [q, copy.deepcopy(q)], _c05_events(rng, b3=True))
     # constant conditions (no variable at all) alone and combined with ordinary ones
@@ -1578,7 +1616,8 @@ def check_C11(tier, seed):
         run.exhaustive = False
     for p in progs:
         for _ in range(1 if quick else 2):
-            W, doms = _world_and_doms(rng, 2, quick)
+            # (some worlds hold distinct objects that compare equal: each satisfying assignment gets its own instance)
+            W, doms = _world_and_doms(rng, 2, quick, value_equal_p=0.25, prog=p)
             q = {"vars": [{"cls": "A", "dom": doms[0]}, {"cls": "A", "dom": doms[1]}], "flats": [], "bound": [],
                  "desc": "entity", "quant": "infer", "sel": [], "cond": p["cond"], "head": p["head"], "varkeys": [1, 2]}
             qc.add(W, [q], [{"op": "infer", "qi": 1}])
